@@ -23,7 +23,7 @@ Proof. destruct a; cbn; split; congruence. Qed.
 Lemma vsum_scaled m a c :
   vsum (vmul m (vsq (vscale c a))) = c * c * vsum (vmul m (vsq a)).
 Proof.
-  revert a. induction m as [|x m IH]; intros [|y a]; cbn; try lra.
+  unfold vsq, vscale. revert a. induction m as [|x m IH]; intros [|y a]; cbn; try lra.
   rewrite IH. unfold Rsqr. lra.
 Qed.
 
@@ -41,11 +41,12 @@ Lemma vsum_pos_sq m a :
 Proof.
   revert a. induction m as [|x m IH]; intros [|y a] Hl Hne Hm Ha; cbn in *; try congruence; try discriminate.
   inversion Hm; inversion Ha; subst.
-  assert (0 < x * Rsqr y) by (apply Rmult_lt_0_compat; [assumption|apply Rlt_0_sqr; lra]).
+  assert (Hxy : 0 < x * Rsqr y) by (apply Rmult_lt_0_compat; [assumption|apply Rlt_0_sqr; lra]).
+  set (t := x * Rsqr y) in *.
   destruct a as [|z a].
   - destruct m; cbn; lra.
   - assert (0 < vsum (vmul m (vsq (z :: a)))) by (apply IH; [lia|congruence|assumption|assumption]).
-    lra.
+    unfold vsq in *. lra.
 Qed.
 
 Lemma vsum_pos_lin m a :
@@ -53,7 +54,8 @@ Lemma vsum_pos_lin m a :
 Proof.
   revert a. induction m as [|x m IH]; intros [|y a] Hl Hne Hm Ha; cbn in *; try congruence; try discriminate.
   inversion Hm; inversion Ha; subst.
-  assert (0 < x * y) by (apply Rmult_lt_0_compat; assumption).
+  assert (Hxy : 0 < x * y) by (apply Rmult_lt_0_compat; assumption).
+  set (t := x * y) in *.
   destruct a as [|z a].
   - destruct m; cbn; lra.
   - assert (0 < vsum (vmul m (z :: a))) by (apply IH; [lia|congruence|assumption|assumption]).
